@@ -70,6 +70,7 @@ def extra(res, facts, entries, protos):
         else:
             res.violate("C07.R2", e.id, "header check call", msg, file=v.file(), line=ln)
     header_table(res, facts)
+    header_table_configs(res, "C07.R9")
     header_writers(res, facts)
 
 
@@ -106,6 +107,50 @@ def header_table(res, facts):
             res.violate("C07.R3", b["id"], "header for (%s, %s)" % (vv.lower(), pp.lower()), "Header::<%s, %s>::default() must carry %r; abstract evaluation gives %s" % (vv, pp, want, sorted(vals)), file=v.file(), line=b["line"])
     if len(set(got_all)) != len(got_all):
         res.violate("C07.R3", b["id"], "header strings not distinct", "two protocols share a header string: %s" % sorted(got_all), file=v.file(), line=b["line"])
+
+
+def header_table_configs(res, rule):
+    """the same evaluation in the default and the eight single-protocol configurations, for the protocols each of them enables: the header
+    table is shared code and may be cfg-gated per protocol (a v3.public entry gated on v3_local compiles everywhere and yields "" in a
+    build with v3_public alone)"""
+    from .. import absint as A
+    from .. import models as MD
+    from .. import facts as F
+    for cfg in ["default"] + list(F.PROTOCOLS):
+        try:
+            f2 = F.load(cfg)
+        except F.ExtractError:
+            res.notes.append("configuration %s does not type-check: header table not evaluated there (C20 reports it)" % cfg)
+            continue
+        protos = [("V4", "Local"), ("V4", "Public")] if cfg == "default" else [(cfg[:2].upper(), cfg[3:].capitalize())]
+        bs = S.impl_fns(f2, r"^crate::core::header::Header<Version, Purpose>$", r"^core::default::Default$", "default")
+        if len(bs) != 1:
+            res.oblige(False)
+            res.violate(rule, "Header::default", "[configuration %s] anchor missing" % cfg, "expected one Default impl for Header<Version, Purpose> in configuration %s, found %d" % (cfg, len(bs)))
+            continue
+        b = bs[0]
+        v = M.view(f2, b)
+        for (vv, pp) in protos:
+            want = PR.HEADER[(vv, pp)]
+            I = A.Interp(f2, MD.MODELS)
+            I.root_tparams = {"Version": "crate::core::version::%s::%s" % (vv.lower(), vv), "Purpose": "crate::core::purpose::%s::%s" % (pp.lower(), pp)}
+            vals = set()
+            for o in I.run(b, []):
+                if o.kind != "return" or o.state.unmodelled:
+                    vals.add("undecided (%s)" % (o.state.unmodelled or o.value,))
+                    continue
+                r = I.resolve(o.state, o.value)
+                h = MD.deref(I, o.state, r.fields.get("header")) if isinstance(r, A.Struct) else None
+                vals.add(h.s if isinstance(h, A.StrV) else repr(h))
+            ok = vals == {want}
+            res.oblige(ok)
+            if ok:
+                res.inst(rule, "[configuration %s] Header::<%s, %s>::default().header = %r" % (cfg, vv, pp, want))
+            else:
+                res.violate(rule, b["id"], "[configuration %s] header for (%s, %s)" % (cfg, vv.lower(), pp.lower()),
+                            "in a build with features [%s] Header::<%s, %s>::default() must carry %r; abstract evaluation gives %s: tokens are written / expected with another header" % (cfg, vv, pp, want, sorted(vals)),
+                            file=v.file(), line=b["line"])
+    res.floor(rule, 10)
 
 
 def header_writers(res, facts):
